@@ -6,6 +6,7 @@ coverage) copied into the evidence file.
 """
 from __future__ import annotations
 
+import itertools
 import json
 import os
 import re
@@ -17,6 +18,9 @@ from concurrent.futures import ThreadPoolExecutor
 VERIF = os.path.dirname(os.path.dirname(os.path.abspath(__file__)))
 SPEC = os.path.join(VERIF, "spec")
 JAR = "/opt/veriftools/tla/tla2tools.jar:/opt/veriftools/tla/CommunityModules-deps.jar"
+
+
+_SEQ = itertools.count(1)     # unique run tags: concurrent runs of one module must never share a metadir or a log file
 
 
 class MachineryError(Exception):
@@ -66,7 +70,7 @@ def run_model(
     """Model-check spec/<subdir>/<module>.tla with <cfg>. Returns stats dict."""
     d = os.path.join(SPEC, subdir)
     cfg = cfg or module + ".cfg"
-    tag = f"{module}-{os.path.splitext(os.path.basename(cfg))[0]}-{int(time.time()*1000)%100000}"
+    tag = f"{module}-{os.path.splitext(os.path.basename(cfg))[0]}-{next(_SEQ)}-{os.getpid()}"
     meta = os.path.join(rundir, "meta-" + tag)
     os.makedirs(meta, exist_ok=True)
     props = {}
@@ -204,7 +208,7 @@ def sany(path: str) -> bool:
 def export(subdir: str, module: str, *, rundir: str, env: dict | None = None, xmx: str = "3g", timeout: int = 300):
     """Evaluate an ASSUME-only generator module that writes JSON to IOEnv.OUT_FILE; return the parsed JSON."""
     d = os.path.join(SPEC, subdir)
-    tag = f"{module}-{int(time.time()*1000)%100000}"
+    tag = f"{module}-{next(_SEQ)}-{os.getpid()}"
     meta = os.path.join(rundir, "meta-x-" + tag)
     os.makedirs(meta, exist_ok=True)
     cfg = os.path.join(rundir, f"empty-x-{tag}.cfg")
